@@ -341,7 +341,7 @@ func checkC15(c *Ctx, r *Report) {
 		// inside the once-closure
 		var body *ssa.Function
 		for _, a := range allAnon(f) {
-			if len(findInstrs(a, isSubChanClose)) > 0 {
+			if len(findInstrsIn(a, isSubChanClose)) > 0 {
 				body = a
 			}
 		}
@@ -401,7 +401,7 @@ func checkC15(c *Ctx, r *Report) {
 		if f := c.Fn(subClose); f != nil {
 			var body *ssa.Function
 			for _, a := range allAnon(f) {
-				if len(findInstrs(a, fieldWritePred(nodeT+".sinks"))) > 0 {
+				if len(findInstrsIn(a, fieldWritePred(nodeT+".sinks"))) > 0 {
 					body = a
 				}
 			}
@@ -586,7 +586,7 @@ func checkC15(c *Ctx, r *Report) {
 	// keepLast monotone: every store writes true, the old value, or a value that is true whenever the old value was
 	nKL := 0
 	for _, f := range c.FnsOfPkg(ebP) {
-		for _, in := range findInstrs(f, fieldWritePred(nodeT+".keepLast")) {
+		for _, in := range findInstrsIn(f, fieldWritePred(nodeT+".keepLast")) {
 			st := in.(*ssa.Store)
 			if localAllocRoot(st.Addr) != nil {
 				continue
@@ -707,7 +707,7 @@ func checkC15(c *Ctx, r *Report) {
 	}
 	if f := r5.need(subClose); f != nil {
 		for _, a := range allAnon(f) {
-			drops := findInstrs(a, func(in ssa.Instruction) bool { return isDynCallOfField(in, ebP+".sub.dropper") })
+			drops := findInstrsIn(a, func(in ssa.Instruction) bool { return isDynCallOfField(in, ebP+".sub.dropper") })
 			if len(drops) == 0 {
 				continue
 			}
